@@ -13,7 +13,7 @@
   "A C++ compiler accepts the header" is not a theorem (no compiler is modelled): correspondence only.
 
   The model follows the code AFTER the repairs of F3b (5f82544), F3a (0f767b2), F13 (bd13865), F22 (61d18c3), F24 (5a4a210),
-  F23 (17832f1): literal_roundtrip, ops_subset_cxx and builtin_calls_welltyped are proved in full; the former behaviour is
+  F23 (17832f1), F70 (4e55b2c): literal_roundtrip, ops_subset_cxx and builtin_calls_welltyped are proved in full; the former behaviour is
   kept as `…Old` definitions with kernel-checked witnesses (`…_old_refuted`, `literal_*_witness`).
 -/
 import QV.Proofs.CxxEmit
@@ -217,49 +217,41 @@ theorem includes_cover (objs : List Obj) :
 
 /-- **Every operator the type checker admits is spelled as something a C++17 compiler accepts on those operands**:
     arithmetic (`%` on doubles is `std::fmod`, recorded as a use of `<cmath>`), comparison (no ordering of pointers),
-    bitwise operators with (unscoped) enumeration / QFlags operands (result cast back through `int`), for enumerations
-    with and without `Q_DECLARE_OPERATORS_FOR_FLAGS`.  For operands of SCOPED enumeration type the clause is false
-    today (finding F70, `bit_scoped_refuted`). -/
+    bitwise operators with enumeration operands — unscoped, QFlags or scoped (`enum class`: printed as
+    `static_cast<int>(operand)`), result cast back through `int` — for enumerations with and without
+    `Q_DECLARE_OPERATORS_FOR_FLAGS`. -/
 theorem ops_subset_cxx :
     (∀ (op : ArithOp) (t : PTy), implAcceptsArith op t = true →
         cxxAcceptsArith (spellArith op t) op t = true ∧
         (spellArith op t = .fmod → Builtin.fmod ∈ arithUses (spellArith op t))) ∧
     (∀ (op : CmpOp) (o : CmpOperands), implAcceptsCmp op o = true → cxxAcceptsCmp op o = true) ∧
     (∀ (flagOps : Bool) (op : BitOp) (l r : ETy), isEnumOperand l = true → isEnumOperand r = true →
-        l ≠ .scopedEnum → r ≠ .scopedEnum → cxxAcceptsBit flagOps op l r = true) ∧
-    (∀ (a : ETy), isEnumOperand a = true → a ≠ .scopedEnum → cxxAcceptsNot a = true) := by
+        cxxAcceptsBit flagOps op l r = true) ∧
+    (∀ (a : ETy), isEnumOperand a = true → cxxAcceptsNot a = true) := by
   refine ⟨?_, ?_, ?_, ?_⟩
   · intro op t h
     cases op <;> cases t <;> simp_all [implAcceptsArith, cxxAcceptsArith, cxxAcceptsInfix, spellArith, arithUses]
   · intro op o h
     cases o <;> simp_all [implAcceptsCmp, cxxAcceptsCmp]
-  · intro f op l r hl hr hl' hr'
-    cases l <;> cases r <;> simp_all [isEnumOperand, cxxAcceptsBit, bitOperandOk, castable]
-  · intro a ha ha'
-    cases a <;> simp_all [isEnumOperand, cxxAcceptsNot, bitOperandOk, castable]
-
-/-- full statement of the bitwise clause: every admitted enumeration operand, scoped ones included -/
-def bit_subset_cxx_full_statement : Prop :=
-  (∀ (flagOps : Bool) (op : BitOp) (l r : ETy), isEnumOperand l = true → isEnumOperand r = true →
-      cxxAcceptsBit flagOps op l r = true) ∧
-  (∀ (a : ETy), isEnumOperand a = true → cxxAcceptsNot a = true)
-
-/-- **refuted** (finding F70): `v.scoped & v2.scoped2` is admitted and printed as
-    `static_cast<WBase::Scoped>(static_cast<int>(a0 & a1))`, but `enum class` values have no `operator&`; same for `~` -/
-theorem bit_scoped_refuted : ¬ bit_subset_cxx_full_statement := by
-  intro h
-  exact absurd (h.2 .scopedEnum (by decide)) (by decide)
-
-/-- with the candidate repair (scoped operands printed as `static_cast<int>(operand)`) the full clause holds -/
-theorem bit_subset_cxx_after_F70 :
-    (∀ (flagOps : Bool) (op : BitOp) (l r : ETy), isEnumOperand l = true → isEnumOperand r = true →
-        cxxAcceptsBitF70 flagOps op l r = true) ∧
-    (∀ (a : ETy), isEnumOperand a = true → cxxAcceptsNotF70 a = true) := by
-  constructor
   · intro f op l r _ _
-    cases l <;> cases r <;> simp [cxxAcceptsBitF70, castScopedOperand, bitOperandOk, castable]
+    cases l <;> cases r <;> simp [cxxAcceptsBit, castScopedOperand, bitOperandOk, castable]
   · intro a _
-    cases a <;> simp [cxxAcceptsNotF70, castScopedOperand, bitOperandOk, castable]
+    cases a <;> simp [cxxAcceptsNot, castScopedOperand, bitOperandOk, castable]
+
+/-- the code before 4e55b2c: `v.scoped & v2.scoped2` and `~v.scoped` were printed with the operands as they are, but
+    `enum class` values have no bitwise operators (finding F70, fixed) -/
+theorem bit_scoped_old_refuted :
+    (¬ ∀ (flagOps : Bool) (op : BitOp) (l r : ETy), isEnumOperand l = true → isEnumOperand r = true →
+        cxxAcceptsBitPre70 flagOps op l r = true) ∧
+    cxxAcceptsNotPre70 .scopedEnum = false := by
+  refine ⟨?_, by decide⟩
+  intro h
+  exact absurd (h false .and .scopedEnum .scopedEnum (by decide) (by decide)) (by decide)
+
+/-- the spelling of a scoped operand inside a bitwise expression, and how many `static_cast<int>(` an operation prints -/
+example : formatBitwiseOperand true "a0".toList = "static_cast<int>(a0)".toList ∧ formatBitwiseOperand false "a0".toList = "a0".toList ∧
+    bitwiseIntCasts ⟨false, true, true⟩ = 3 ∧ bitwiseIntCasts ⟨true, true, false⟩ = 2 ∧ bitwiseIntCasts ⟨false, false, false⟩ = 1 := by
+  decide +kernel
 
 /-- the code before 0f767b2: `double % double` was admitted and printed as `%` (finding F3a, fixed) -/
 theorem ops_subset_cxx_old_refuted :
@@ -621,11 +613,11 @@ example : spellArith .rem .double = .fmod ∧ spellArith .rem .int = .infix ∧ 
 /-- colliding prefixes: `foo`+`windowTitle` and `fooWindow`+`title` (and `title1`) get distinct names -/
 example :
     (build [
-      { name := "foo".toList, props := [[{ depth := 0, name := "windowTitle".toList, kind := .expr ⟨true, 0, [], [], []⟩ }]],
+      { name := "foo".toList, props := [[{ depth := 0, name := "windowTitle".toList, kind := .expr { dynamic := true, observers := 0, uses := [], lits := [] } }]],
         callbacks := [] },
       { name := "fooWindow".toList,
-        props := [[{ depth := 0, name := "title".toList, kind := .expr ⟨true, 0, [], [], []⟩ }],
-                  [{ depth := 0, name := "title1".toList, kind := .expr ⟨true, 0, [], [], []⟩ }]],
+        props := [[{ depth := 0, name := "title".toList, kind := .expr { dynamic := true, observers := 0, uses := [], lits := [] } }],
+                  [{ depth := 0, name := "title1".toList, kind := .expr { dynamic := true, observers := 0, uses := [], lits := [] } }]],
         callbacks := [] }]).map (·.indexEnum.map String.ofList)
       = some ["FooWindowTitle", "FooWindowTitle1", "FooWindowTitle11"] := by
   decide +kernel
